@@ -148,7 +148,9 @@ def run(ctx, only=None):
         if fname == 'none':
             reqs.append([19, depth, omit, dq, False, r['tree']])
             meta.append((text, depth, omit, r['headings']))
-            if r.get('toc_type') == 'List' and r.get('toc_tree') is not None:
+            # the block model reads LINES (one trailing newline each, as Document prepares them); a heading whose text holds a newline
+            # (a setext heading of several lines) makes toc hand over a 'line' with an embedded newline: not compared
+            if r.get('toc_type') == 'List' and r.get('toc_tree') is not None and all('\n' not in h[1] for h in r['headings']):
                 toc_trees[(text, depth, omit)] = r['toc_tree']
         if not heads:
             continue
